@@ -196,3 +196,106 @@ def kw_value(ctx: Ctx, name: str) -> str:
         if isinstance(st, ast.Assign) and isinstance(st.value, ast.Constant):
             return st.value.value
     raise AnalysisError(f"keyword constant {name} not found")
+
+
+# --------------------------------------------------------------------- CFG-based helpers
+def stmt_calls(ctx: Ctx, fi: FuncInfo):
+    """[(cfg node, ast.Call, canonical call S)] for every call inside a simple statement / test of fi."""
+    g = ctx.cfg(fi)
+    cn = g.canon()
+    out = []
+    for n in g.stmt_nodes():
+        st = n.ast
+        if n.kind == "test":
+            roots = [st.test]
+        elif n.kind == "iter":
+            roots = [st.iter]
+        elif isinstance(st, (ast.With, ast.AsyncWith)):
+            roots = [i.context_expr for i in st.items]
+        elif isinstance(st, ast.Try):
+            roots = []
+        else:
+            roots = [st]
+        for r in roots:
+            for c in ast.walk(r):
+                if isinstance(c, ast.Call):
+                    try:
+                        out.append((n, c, cn.expr(c)))
+                    except Exception:
+                        out.append((n, c, None))
+    return out
+
+
+def facts_text(facts) -> list[str]:
+    return sorted(show(f) for f in facts)
+
+
+def exit_facts(ctx: Ctx, fi: FuncInfo):
+    from framelint.cfg import EXIT
+    return ctx.cfg(fi).facts_at(EXIT)
+
+
+def assert_conjuncts(ctx: Ctx, fi: FuncInfo):
+    """[(cfg node, ast.Assert, set of canonical conjuncts, facts holding at the assert)]"""
+    g = ctx.cfg(fi)
+    out = []
+    for n in g.stmt_nodes():
+        if isinstance(n.ast, ast.Assert):
+            conj = set(g.cond_facts(n.ast.test, True))
+            out.append((n, n.ast, conj, g.facts_at(n.id)))
+    return out
+
+
+def enclosing_loops(fi: FuncInfo, target: ast.AST) -> list[ast.stmt]:
+    """Chain of for/while statements (outermost first) whose body contains ``target``."""
+    chain: list[ast.stmt] = []
+
+    def rec(stmts, acc) -> bool:
+        for st in stmts:
+            if st is target or any(x is target for x in ast.walk(st) if not isinstance(st, (ast.For, ast.While, ast.If, ast.With, ast.Try))):
+                chain.extend(acc)
+                return True
+            if isinstance(st, (ast.For, ast.AsyncFor, ast.While)):
+                if rec(st.body, acc + [st]) or rec(st.orelse, acc):
+                    return True
+                if any(x is target for x in ast.walk(st.iter if isinstance(st, ast.For) else st.test)):
+                    chain.extend(acc)
+                    return True
+            elif isinstance(st, ast.If):
+                if any(x is target for x in ast.walk(st.test)):
+                    chain.extend(acc)
+                    return True
+                if rec(st.body, acc) or rec(st.orelse, acc):
+                    return True
+            elif isinstance(st, (ast.With, ast.AsyncWith)):
+                if rec(st.body, acc):
+                    return True
+            elif isinstance(st, ast.Try):
+                for b in [st.body, st.orelse, st.finalbody] + [h.body for h in st.handlers]:
+                    if rec(b, acc):
+                        return True
+        return False
+    rec(body_without_docstring(fi.node), [])
+    return chain
+
+
+def attr_stores_in_repo(ctx: Ctx, attr: str):
+    """All (FuncInfo, node) where ``<expr>.attr`` is assigned, augmented or deleted anywhere in the repo."""
+    out = []
+    for f in ctx.model.all_functions():
+        for n in walk_own(f.node):
+            if isinstance(n, ast.Attribute) and n.attr == attr and isinstance(n.ctx, (ast.Store, ast.Del)):
+                out.append((f, n))
+    return out
+
+
+def mutating_calls_on_attr(ctx: Ctx, attr: str):
+    """All (FuncInfo, call) where a mutator method is called on ``<expr>.attr``."""
+    from framelint.canon import MUTATOR_METHODS
+    out = []
+    for f in ctx.model.all_functions():
+        for n in walk_own(f.node):
+            if isinstance(n, ast.Call) and isinstance(n.func, ast.Attribute) and n.func.attr in MUTATOR_METHODS \
+                    and isinstance(n.func.value, ast.Attribute) and n.func.value.attr == attr:
+                out.append((f, n))
+    return out
